@@ -9,7 +9,7 @@ package boltz
 //@   props C02
 //@   requires query != nil
 //@   modifies s.targetOffset, s.targetLimit, qHasSkip[query], qSkip[query], qHasLimit[query], qLimit[query]
-//@   ensures[offset] s.targetOffset == ite(old(qHasSkip[query]), old(qSkip[query]), 0)
+//@   ensures[offset] s.targetOffset == ite(old(qHasSkip[query]), max(old(qSkip[query]), 0), 0)
 //@   ensures[limit] s.targetLimit == ite(old(qHasLimit[query]) && old(qLimit[query]) >= 0, old(qLimit[query]), MaxInt64)
 //@   ensures[limit-nonneg] s.targetLimit >= 0
 
@@ -83,7 +83,7 @@ package boltz
 //@   ensures[count] scanner.cursor != nil ==> result1 == cnt(curSeq[scanner.cursor], query, scanner.store, curLen[scanner.cursor])
 //@   ensures[len] scanner.cursor != nil ==> len(result0) == max(0, min(result1 - max(scanner.targetOffset, 0), scanner.targetLimit))
 //@   ensures[elems] scanner.cursor != nil ==> forall(k, 0 <= k && k < len(result0) ==> result0[k] == curSeq[scanner.cursor][nth(curSeq[scanner.cursor], query, scanner.store, k + max(scanner.targetOffset, 0))])
-//@   ensures[paging] scanner.targetOffset == ite(old(qHasSkip[query]), old(qSkip[query]), 0) && scanner.targetLimit == ite(old(qHasLimit[query]) && old(qLimit[query]) >= 0, old(qLimit[query]), MaxInt64)
+//@   ensures[paging] scanner.targetOffset == ite(old(qHasSkip[query]), max(old(qSkip[query]), 0), 0) && scanner.targetLimit == ite(old(qHasLimit[query]) && old(qLimit[query]) >= 0, old(qLimit[query]), MaxInt64)
 //@   ensures[err] result2 == nil
 //@   invariant 1: scanner.cursor != nil && scanner.rowCursor != nil && scanner.filter == query && scanner.store != nil && scanner.targetLimit >= 0
 //@   invariant 1: 0 <= curPos[scanner.cursor] && curPos[scanner.cursor] <= curLen[scanner.cursor] && curLen[scanner.cursor] < MaxInt64
@@ -93,3 +93,109 @@ package boltz
 //@   invariant 1: scanner.collected == min(scanner.count - scanner.offset, scanner.targetLimit)
 //@   invariant 1: len(result) == scanner.collected
 //@   invariant 1: forall(k, 0 <= k && k < len(result) ==> result[k] == curSeq[scanner.cursor][nth(curSeq[scanner.cursor], query, scanner.store, k + max(scanner.targetOffset, 0))])
+
+// ---------------------------------------------------------------------------
+// sortingScanner (C02): the tree holds the min(count, offset+limit) smallest matches;
+// offset+limit is computed without wrap-around; the Do callback drops the first
+// targetOffset rows and appends the others.
+// ---------------------------------------------------------------------------
+
+//@ func (Store).newRowComparator
+//@   pure
+//@ func (*sortingScanner).ScanCursor
+//@   props C02
+//@   requires query != nil && scanner.store != nil
+//@   requires scanner.offset == 0 && scanner.count == 0
+//@   modifies *
+//@   lensures[count] result2 == nil && cursor != nil ==> result1 == cnt(curSeq[cursor], query, scanner.store, curLen[cursor])
+//@   invariant[paging] 1: scanner.targetOffset == ite(old(qHasSkip[query]), max(old(qSkip[query]), 0), 0) && scanner.targetLimit == ite(old(qHasLimit[query]) && old(qLimit[query]) >= 0, old(qLimit[query]), MaxInt64)
+//@   invariant[window] 1: maxResults == min(MaxInt64, scanner.targetOffset + scanner.targetLimit)
+//@   invariant[tree-size] 1: treeLen[results] == min(scanner.count, maxResults)
+//@   invariant[count] 1: 0 <= curPos[cursor] && curPos[cursor] <= curLen[cursor] && curLen[cursor] < MaxInt64 && 0 <= scanner.count && scanner.count <= curPos[cursor] && scanner.count == cnt(curSeq[cursor], query, scanner.store, curPos[cursor])
+//@   invariant 1: cursor != nil && rowCursor != nil && scanner.store != nil && results != nil
+
+//@ func (*sortingScanner).ScanCursor$1
+//@   props C02
+//@   requires *scanner != nil && istype(row, *Row) && ref(row) != 0
+//@   modifies (*scanner).offset, *fv(result)
+//@   ensures[skip] old((*scanner).offset) < (*scanner).targetOffset ==> (*scanner).offset == old((*scanner).offset) + 1 && *fv(result) == old(*fv(result))
+//@   ensures[take] old((*scanner).offset) >= (*scanner).targetOffset ==> (*scanner).offset == old((*scanner).offset) && len(*fv(result)) == old(len(*fv(result))) + 1 && (*fv(result))[old(len(*fv(result)))] == str(as(row, *Row).id)
+//@   ensures[all] result == false
+
+// ---------------------------------------------------------------------------
+// Sort comparators (C02): nil sorts before non-nil when ascending; descending negates.
+// ---------------------------------------------------------------------------
+
+//@ spec cmp3(n1 Bool, n2 Bool, lt Bool, gt Bool) Int = (ite n1 (ite n2 0 (- 1)) (ite n2 1 (ite lt (- 1) (ite gt 1 0))))
+//@ spec symFT(sym Int, row Str) Int
+//@ spec symBytes(sym Int, row Str) Str
+//@ spec symBytesNil(sym Int, row Str) Bool
+
+//@ func (EntitySymbol).Eval
+//@   pure
+//@   ensures result0 == symFT(self, str(rowId)) && str(result1) == symBytes(self, str(rowId)) && (result1 == nil) == symBytesNil(self, str(rowId))
+//@ func (EntitySymbol).GetName
+//@   pure
+//@ func (RowCursor).Tx
+//@   pure
+//@ func (RowCursor).CurrentRow
+//@   pure
+//@   ensures str(result) == symRow[self]
+
+//@ spec f2sNull(ft Int, v Str, vnil Bool) Bool
+//@ spec f2sVal(ft Int, v Str) Str
+//@ spec f2iNull(ft Int, v Str, vnil Bool) Bool
+//@ spec f2iVal(ft Int, v Str) Int
+//@ spec f2fNull(ft Int, v Str, vnil Bool) Bool
+//@ spec f2fVal(ft Int, v Str) Real
+//@ spec f2bNull(ft Int, v Str, vnil Bool) Bool
+//@ spec f2bVal(ft Int, v Str) Bool
+//@ spec f2dNull(ft Int, v Str, vnil Bool) Bool
+//@ spec f2dInstant(ft Int, v Str) Int
+
+//@ func FieldToString
+//@   pure
+//@   ensures (result == nil) == f2sNull(fieldType, str(value), value == nil)
+//@   ensures result != nil ==> *result == f2sVal(fieldType, str(value))
+//@ func FieldToInt64
+//@   pure
+//@   ensures (result == nil) == f2iNull(fieldType, str(value), value == nil)
+//@   ensures result != nil ==> *result == f2iVal(fieldType, str(value))
+//@ func FieldToFloat64
+//@   pure
+//@   ensures (result == nil) == f2fNull(fieldType, str(value), value == nil)
+//@   ensures result != nil ==> *result == f2fVal(fieldType, str(value))
+//@ func FieldToBool
+//@   pure
+//@   ensures (result == nil) == f2bNull(fieldType, str(value), value == nil)
+//@   ensures result != nil ==> *result == f2bVal(fieldType, str(value))
+//@ func FieldToDatetime
+//@   pure
+//@   ensures (result == nil) == f2dNull(fieldType, str(value), value == nil)
+//@   ensures result != nil ==> timeInstant(*result) == f2dInstant(fieldType, str(value))
+
+//@ func (*stringSymbolComparator).Compare
+//@   props C02
+//@   requires c.symbol != nil && row1 != nil && row2 != nil
+//@   pure
+//@   ensures[order] result == ite(c.forward, 1, -1) * cmp3(f2sNull(symFT(c.symbol, symRow[row1]), symBytes(c.symbol, symRow[row1]), symBytesNil(c.symbol, symRow[row1])), f2sNull(symFT(c.symbol, symRow[row2]), symBytes(c.symbol, symRow[row2]), symBytesNil(c.symbol, symRow[row2])), f2sVal(symFT(c.symbol, symRow[row1]), symBytes(c.symbol, symRow[row1])) < f2sVal(symFT(c.symbol, symRow[row2]), symBytes(c.symbol, symRow[row2])), f2sVal(symFT(c.symbol, symRow[row1]), symBytes(c.symbol, symRow[row1])) > f2sVal(symFT(c.symbol, symRow[row2]), symBytes(c.symbol, symRow[row2])))
+//@ func (*int64SymbolComparator).Compare
+//@   props C02
+//@   requires c.symbol != nil && row1 != nil && row2 != nil
+//@   pure
+//@   ensures[order] result == ite(c.forward, 1, -1) * cmp3(f2iNull(symFT(c.symbol, symRow[row1]), symBytes(c.symbol, symRow[row1]), symBytesNil(c.symbol, symRow[row1])), f2iNull(symFT(c.symbol, symRow[row2]), symBytes(c.symbol, symRow[row2]), symBytesNil(c.symbol, symRow[row2])), f2iVal(symFT(c.symbol, symRow[row1]), symBytes(c.symbol, symRow[row1])) < f2iVal(symFT(c.symbol, symRow[row2]), symBytes(c.symbol, symRow[row2])), f2iVal(symFT(c.symbol, symRow[row1]), symBytes(c.symbol, symRow[row1])) > f2iVal(symFT(c.symbol, symRow[row2]), symBytes(c.symbol, symRow[row2])))
+//@ func (*float64SymbolComparator).Compare
+//@   props C02
+//@   requires c.symbol != nil && row1 != nil && row2 != nil
+//@   pure
+//@   ensures[order] result == ite(c.forward, 1, -1) * cmp3(f2fNull(symFT(c.symbol, symRow[row1]), symBytes(c.symbol, symRow[row1]), symBytesNil(c.symbol, symRow[row1])), f2fNull(symFT(c.symbol, symRow[row2]), symBytes(c.symbol, symRow[row2]), symBytesNil(c.symbol, symRow[row2])), f2fVal(symFT(c.symbol, symRow[row1]), symBytes(c.symbol, symRow[row1])) < f2fVal(symFT(c.symbol, symRow[row2]), symBytes(c.symbol, symRow[row2])), f2fVal(symFT(c.symbol, symRow[row1]), symBytes(c.symbol, symRow[row1])) > f2fVal(symFT(c.symbol, symRow[row2]), symBytes(c.symbol, symRow[row2])))
+//@ func (*boolSymbolComparator).Compare
+//@   props C02
+//@   requires c.symbol != nil && row1 != nil && row2 != nil
+//@   pure
+//@   ensures[order] result == ite(c.forward, 1, -1) * cmp3(f2bNull(symFT(c.symbol, symRow[row1]), symBytes(c.symbol, symRow[row1]), symBytesNil(c.symbol, symRow[row1])), f2bNull(symFT(c.symbol, symRow[row2]), symBytes(c.symbol, symRow[row2]), symBytesNil(c.symbol, symRow[row2])), !f2bVal(symFT(c.symbol, symRow[row1]), symBytes(c.symbol, symRow[row1])) && f2bVal(symFT(c.symbol, symRow[row2]), symBytes(c.symbol, symRow[row2])), f2bVal(symFT(c.symbol, symRow[row1]), symBytes(c.symbol, symRow[row1])) && !f2bVal(symFT(c.symbol, symRow[row2]), symBytes(c.symbol, symRow[row2])))
+//@ func (*datetimeSymbolComparator).Compare
+//@   props C02
+//@   requires c.symbol != nil && row1 != nil && row2 != nil
+//@   pure
+//@   ensures[order] result == ite(c.forward, 1, -1) * cmp3(f2dNull(symFT(c.symbol, symRow[row1]), symBytes(c.symbol, symRow[row1]), symBytesNil(c.symbol, symRow[row1])), f2dNull(symFT(c.symbol, symRow[row2]), symBytes(c.symbol, symRow[row2]), symBytesNil(c.symbol, symRow[row2])), f2dInstant(symFT(c.symbol, symRow[row1]), symBytes(c.symbol, symRow[row1])) < f2dInstant(symFT(c.symbol, symRow[row2]), symBytes(c.symbol, symRow[row2])), f2dInstant(symFT(c.symbol, symRow[row1]), symBytes(c.symbol, symRow[row1])) > f2dInstant(symFT(c.symbol, symRow[row2]), symBytes(c.symbol, symRow[row2])))
